@@ -220,6 +220,13 @@ func buildCases(thorough bool) []crashCase {
 			addCase(st, sp.name, sp.b, "")
 		}
 	}
+	// messages that stay incomplete (five bytes short) while the node is shut down by its owner
+	for _, st := range []string{"ready-tx", "ready-block"} {
+		for _, l := range []string{"tx[tx0]", "extmsg/tx[tx0]", "block[block1]", "extmsg/block[block1]", "headers[block1,block2]", "addr[1]", "inv[tx0]"} {
+			b := netsim.Letters[l]
+			addCase(st, l+"/five-bytes-short+node-interrupted", b[:len(b)-5], "!interrupt")
+		}
+	}
 	// well-formed headers messages that build fork trees: every ordered triple of six short chains
 	// of the labelled universe (two chains on genesis, forks off the first and second header of the
 	// first chain, heavier and lighter ones): reorganisations to child, parent, sibling and cousin
@@ -303,7 +310,13 @@ func crashWorker() {
 		}
 		b, _ := hex.DecodeString(c.Hex)
 		s.Deliver(b)
-		if c.Then != "" {
+		if c.Then == "!interrupt" {
+			// the message stays incomplete (the peer has stopped sending, the connection is open) and
+			// the embedding program shuts the node down: the handler that waits for the rest is given up
+			settleNoPing(s, 2*time.Second)
+			s.InterruptNode()
+			s.WaitRun(5 * time.Second)
+		} else if c.Then != "" {
 			s.Deliver(netsim.Letters[c.Then])
 		}
 		r := s.Barrier(300 * time.Millisecond)
